@@ -1,0 +1,18 @@
+//go:build verif
+
+package sqlparser
+
+// Verification hooks (build tag `verif` only) for the tokenizer correspondence check. Nothing here changes
+// behaviour; the file is not compiled without the tag.
+
+// VerifSetMulti sets the unexported flag that ParseNext sets: with it a `;` ends the statement
+// (Scan returns 0 without consuming it).
+func VerifSetMulti(tkn *Tokenizer, multi bool) { tkn.multi = multi }
+
+// VerifLex runs Lex – the method the generated parser calls for every token (it skips comments unless
+// AllowComments is set) – and returns the token type with the bytes Lex stored for the parser.
+func VerifLex(tkn *Tokenizer) (int, []byte) {
+	var lval yySymType
+	typ := tkn.Lex(&lval)
+	return typ, lval.bytes
+}
